@@ -324,16 +324,7 @@ def main_run(prop_name, tier, seed, nproc=16, replay=None):
         guarded_check(prop, d["case"], total)
         return finish(prop, total, tier, seed, t0, known, replay_mode=True)
 
-    # 1. committed regression inputs (repaired defects and known findings), without Hypothesis
-    for path, d in regress_cases(prop.ID):
-        guarded_check(prop, d["case"], total)
-        total.event("regress-cases")
-
-    # 2. exhaustive part, if the property has a finite sub-domain
-    if hasattr(prop, "exhaustive"):
-        prop.exhaustive(total, tier)
-
-    # 3. generated part
+    # 1. generated part (first, so that the workers fork from a parent that has not exercised the library yet)
     units = prop.units(tier)          # list of (unit, n_examples)
     jobs = [(prop_name, tier, u, n, derive_seed(seed, prop.ID, u)) for (u, n) in units]
     results = []
@@ -352,6 +343,15 @@ def main_run(prop_name, tier, seed, nproc=16, replay=None):
             f["unit"] = d["unit"]
             f["shard_seed"] = d["seed"]
         total.absorb(d)
+    # 2. committed regression inputs (repaired defects and known findings), without Hypothesis
+    for path, d in regress_cases(prop.ID):
+        guarded_check(prop, d["case"], total)
+        total.event("regress-cases")
+
+    # 3. exhaustive part, if the property has a finite sub-domain
+    if hasattr(prop, "exhaustive"):
+        prop.exhaustive(total, tier)
+
     total.extra["units"] = len(jobs)
     return finish(prop, total, tier, seed, t0, known, jobs=jobs)
 
